@@ -216,11 +216,13 @@ class FuncAnalysis:
         return ('unk', why, self._n_unk)
 
     def _counters(self):
-        return dict(self._ver), dict(getattr(self, '_nth', {}))
+        return dict(self._ver), dict(getattr(self, '_nth', {})), getattr(self, '_n_try', 0), self._n_unk
 
     def _restore_counters(self, snap):
         self._ver = dict(snap[0])
         self._nth = dict(snap[1])
+        self._n_try = snap[2]
+        self._n_unk = snap[3]
 
     def _merge_counters(self, other):
         for k, v in other[0].items():
@@ -230,6 +232,8 @@ class FuncAnalysis:
         for k, v in other[1].items():
             if v > self._nth.get(k, 0):
                 self._nth[k] = v
+        self._n_try = max(getattr(self, '_n_try', 0), other[2])
+        self._n_unk = max(self._n_unk, other[3])
 
     def _bump(self, base):
         if not self.versioned or base[0] in ('c', 'g', 'unk'):
